@@ -16,7 +16,8 @@ EXPLANATION = (
     ' validate-complete: the checker of every builtin admits no more operand kinds than its evaluator handles (so an ill-typed replacement is refused).'
     ' success-without-swap: every Ok return of set_rules passes the write that replaces the list.'
     " posted-list: the list post_rules hands to set_rules is the extractor's payload itself (moved or cloned), not the result of a call, and not truncated / reordered before."
-    ' validate-complete also includes T-acc: the checker declares exactly the request attributes the evaluator produces.')
+    ' validate-complete also includes T-acc: the checker declares exactly the request attributes the evaluator produces.'
+    ' no-residue / stateless: every static of the milu crate is a tracing call site, a counter cell or constant text (no per-thread memo survives a type check).')
 RULE_TEXT = "instances = writers of the rule list, exits of set_rules, guards in process_request, serde fields"
 TRUSTED = ["tokio RwLock gives writers exclusive access", "serde derives honour the field attributes"]
 NOT_DECIDED = ["linearisation under the actual scheduler (argued from 1-3 and RwLock semantics; not model-checked)"]
@@ -29,6 +30,9 @@ def run(chk, prog):
     depthguard.rule_balanced(chk, prog, "no-residue", "milu", "script.rs", 1,
                              "after enough refused replacements the filters of the list still in force fail to evaluate (counted as no match) "
                              "and valid replacements are refused on that thread")
+    depthguard.rule_stateless(chk, prog, "no-residue", "milu",
+                              "whether a posted list is accepted then depends on what that thread checked before (a list refused on one "
+                              "worker is accepted on another, an ill-typed filter is accepted after a well-typed one of the same shape)")
     # a replacement is refused when one of its filters is ill-typed: that needs a checker that admits no more than the evaluator handles
     from . import c08 as _c08
     _c08.rule_variants(chk, prog, "validate-complete")
